@@ -6,6 +6,8 @@ open Operon Operon.Proto Operon.Cascade
 structure DSt where
   cfg : Cfg := ⟨true, 100⟩
   stages : List (Stage Nat) := []
+  names : List String := []          -- stage names (only `remove` looks at them: first stage with that name)
+  made : Nat := 0                    -- number of stages ever created (identity used by the stub callbacks)
 
 def mkStage (i : Nat) (cp pr eh : String) (req : Bool) (amp : Rat) : Stage Nat :=
   { checkpoint :=
@@ -13,13 +15,16 @@ def mkStage (i : Nat) (cp pr eh : String) (req : Bool) (amp : Rat) : Stage Nat :
       | "pass" => some fun _ => .ok true
       | "reject" => some fun _ => .ok false
       | "raise" => some fun _ => .raise
+      | "raise0" => some fun _ => .raise          -- an exception whose str() is empty: same behaviour
       | "odd" => some fun x => .ok (x % 2 == 1)
+      | "lt50" => some fun x => .ok (x < 50)
       | _ => none
     processor := fun x => if pr = "ok" then .ok (x * 10 + i + 1) else .raise
     onError :=
       match eh with
       | "ok" => some fun _ => .ok (7000 + i)
       | "raise" => some fun _ => .raise
+      | "raise0" => some fun _ => .raise
       | _ => none
     required := req
     amp := amp }
@@ -36,14 +41,26 @@ def showEv : Ev Nat → String
 
 def step (st : DSt) (toks : List String) : DSt × String :=
   match toks with
-  | ["cfg", h, m] => ({ cfg := ⟨boolOf h, ratOf m⟩, stages := [] }, "ok")
+  | ["cfg", h, m] => ({ cfg := ⟨boolOf h, ratOf m⟩, stages := [], names := [], made := 0 }, "ok")
   | ["stage", cp, pr, eh, req, amp] =>
-    ({ st with stages := st.stages ++ [mkStage st.stages.length cp pr eh (boolOf req) (ratOf amp)] }, "ok")
+    ({ st with stages := st.stages ++ [mkStage st.made cp pr eh (boolOf req) (ratOf amp)],
+               names := st.names ++ [s!"s{st.made}"], made := st.made + 1 }, "ok")
+  | ["stage", cp, pr, eh, req, amp, name] =>
+    ({ st with stages := st.stages ++ [mkStage st.made cp pr eh (boolOf req) (ratOf amp)],
+               names := st.names ++ [name], made := st.made + 1 }, "ok")
+  | ["insert", idx, cp, pr, eh, req, amp, name] =>
+    let i := min (natD idx) st.stages.length
+    ({ st with stages := st.stages.take i ++ [mkStage st.made cp pr eh (boolOf req) (ratOf amp)] ++ st.stages.drop i,
+               names := st.names.take i ++ [name] ++ st.names.drop i, made := st.made + 1 }, "ok")
+  | ["remove", name] =>
+    match st.names.findIdx? (· == name) with
+    | some i => ({ st with stages := st.stages.eraseIdx i, names := st.names.eraseIdx i }, "1")
+    | none => (st, "0")
   | ["run", x] =>
     let r := result st.cfg st.stages (natD x)
     let fin := match r.final with | some v => s!"some:{v}" | none => "none"
     (st, joinSp [showBool r.success, fin, toString r.completed, toString r.total, showRat r.amplification,
-      showOptNat r.blockedAt,
+      (match r.blockedAt with | some i => st.names.getD i "?" | none => "none"),
       showList (r.results.map fun x => s!"{x.idx}{showStatus x.status}:{showRat x.factor}"),
       showList (r.log.map showEv)])
   | _ => (st, "bad-op")
